@@ -23,6 +23,7 @@ import (
 	"github.com/osmosis-labs/osmosis/v31/x/gamm/pool-models/balancer"
 	incentivestypes "github.com/osmosis-labs/osmosis/v31/x/incentives/types"
 	lockuptypes "github.com/osmosis-labs/osmosis/v31/x/lockup/types"
+	poolmanagertypes "github.com/osmosis-labs/osmosis/v31/x/poolmanager/types"
 	"github.com/osmosis-labs/osmosis/v31/zzverif/chain"
 	"github.com/osmosis-labs/osmosis/v31/zzverif/vk"
 )
@@ -122,7 +123,21 @@ func runC09(c *vk.Ctx) {
 				if synthDenom != "" && r.Intn(8) == 0 {
 					opk = 11
 				}
+				if rwdPrice != 0 && r.Intn(10) == 0 {
+					opk = 12
+				}
 				switch opk {
+				case 12: // the price of the reward denom moves: what is worth the minimum changes from one epoch to the next
+					din, dout := "uosmo", "rwd"
+					if r.Bool() {
+						din, dout = dout, din
+					}
+					amt := ch.Bal(poolmanagertypes.NewPoolAddress(pricePool), din).MulRaw(1 + r.I64n(30)).QuoRaw(10)
+					res := ch.Exec(&poolmanagertypes.MsgSwapExactAmountIn{Sender: funder.Addr.String(), Routes: []poolmanagertypes.SwapAmountInRoute{{PoolId: pricePool, TokenOutDenom: dout}}, TokenIn: sdk.NewCoin(din, amt), TokenOutMinAmount: sdkmath.OneInt()})
+					c.Logf("price move: swap %s%s -> %s on pool %d ok=%v %s", amt, din, dout, pricePool, res.OK(), trunc(res.ErrString(), 120))
+					if res.OK() {
+						c.Count("reward_price_moves", 1)
+					}
 				case 11: // a non-perpetual gauge on the superfluid staking-marker denom
 					coins := sdk.NewCoins(sdk.NewCoin("uosmo", sdkmath.NewIntFromBigInt(r.BigMag(3, 18))))
 					n := uint64(2 + r.Intn(5))
